@@ -151,8 +151,8 @@ Definition apply_un (op : unop) (v : value) : value + oerr :=
   match v with
   | VBool b => match op with UNot => inl (VBool (negb b)) | Neg => inl (VNum (- inject_Z (b2z b))%Q) end
   | VNum q => match op with Neg => inl (VNum (- q)%Q) | UNot => inr EUnsupported end
-  | VInt z => match op with Neg => inl (VInt (- z)) | UNot => inr EUnsupported end    (* -i64::MIN: see C18 *)
-  | VPos n => match op with Neg => inl (VInt (- as_i64 n)) | UNot => inr EUnsupported end
+  | VInt z => match op with Neg => chk_i64 (- z) | UNot => inr EUnsupported end       (* checked_neg *)
+  | VPos n => match op with Neg => chk_i64 (- n) | UNot => inr EUnsupported end       (* i64::try_from then checked_neg *)
   | VStr _ | VOpaque _ => inr EUnsupported
   | VUndef => inr EUndefinedUse
   end.
